@@ -85,6 +85,7 @@ pub fn run_check(ctx: &Ctx) -> Outcome {
         "C01" => {
             check_e1(ctx, Prop::C01, &mut out, 12000, 250000);
             check_e2(ctx, Prop::C01, &[Kind::Lru, Kind::Seg, Kind::TwoQ, Kind::Arc, Kind::Wtl], &mut out);
+            check_ctor_caps(ctx, &mut out);
         }
         "C02" => check_e1(ctx, Prop::C02, &mut out, 10000, 200000),
         "C03" => check_e1(ctx, Prop::C03, &mut out, 12000, 250000),
@@ -104,6 +105,7 @@ pub fn run_check(ctx: &Ctx) -> Outcome {
         "C08" => {
             check_e1(ctx, Prop::C08, &mut out, 12000, 250000);
             check_e2(ctx, Prop::C08, &[Kind::TwoQ], &mut out);
+            check_2q_quota_grid(ctx, &mut out);
         }
         "C09" => {
             check_e1(ctx, Prop::C09, &mut out, 12000, 250000);
@@ -144,6 +146,16 @@ pub fn replay(prop: &str, engine: &str, case: &Value) -> Result<Option<Violation
             let p = prop_of(prop).ok_or_else(|| format!("unknown property {prop}"))?;
             let c: Case = serde_json::from_value(case.clone()).map_err(|e| e.to_string())?;
             Ok(exec_case(&c, p).violation)
+        }
+        "ctorcaps" | "quotagrid" => {
+            let ctx = Ctx { id: prop.to_string(), tier: Tier::Quick, seed: 1, verif_dir: std::env::var("VERIF_DIR").unwrap_or_else(|_| "/verif".into()), known: Default::default(), workers: 1, scale: 1.0 };
+            let mut o = Outcome::default();
+            if engine == "ctorcaps" {
+                check_ctor_caps(&ctx, &mut o);
+            } else {
+                check_2q_quota_grid(&ctx, &mut o);
+            }
+            Ok(o.violations.first().map(|(_, m)| Violation { prop: if engine == "ctorcaps" { "C01" } else { "C08" }, step: 0, msg: m.clone(), sig: format!("ctor/-/{}", engine) }))
         }
         "putresult" => {
             let ctx = Ctx { id: "C12".into(), tier: Tier::Quick, seed: 1, verif_dir: std::env::var("VERIF_DIR").unwrap_or_else(|_| "/verif".into()), known: Default::default(), workers: 1, scale: 1.0 };
